@@ -36,6 +36,13 @@ struct Tot {
 }
 
 fn explore_stop(rep: &mut Reporter, tot: &mut Tot, scn: &Scn, cap_override: Option<usize>, bound: usize, label: &str, expected_output: Option<&[u8]>) {
+    explore_stop_x(rep, tot, scn, cap_override, bound, label, expected_output, false)
+}
+
+/// `must_stop`: the stream carries at least as many errors as the configured cap, so in every execution the
+/// controller must raise the stop flag (the run is cut short by reaching the cap, not one error later).
+#[allow(clippy::too_many_arguments)]
+fn explore_stop_x(rep: &mut Reporter, tot: &mut Tot, scn: &Scn, cap_override: Option<usize>, bound: usize, label: &str, expected_output: Option<&[u8]>, must_stop: bool) {
     let cfg = scenario::config(scn);
     let base = Policy { prefix: vec![], max_steps: 30_000, yield_on_unbounded_send: false, cap_override, descending: false };
     let mut problems: Vec<(String, String, Vec<usize>)> = Vec::new();
@@ -75,8 +82,10 @@ fn explore_stop(rep: &mut Reporter, tot: &mut Tot, scn: &Scn, cap_override: Opti
                 tot.full_queue_seen = true;
             }
         }
-        if r.steps.iter().any(|s| matches!(s.op, fp_sched::core::Op::Store(_, true))) {
+        if r.steps.iter().any(|s| matches!(s.op, fp_sched::core::Op::Store(id, true) if Some(id) == o.stop_flag_id)) {
             tot.stop_observed_runs += 1;
+        } else if must_stop && r.outcome == Outcome::Completed {
+            problems.push(("stop:cap-reached-but-not-stopped".into(), format!("the stream carries at least {} errors, the cap is {}, yet the stop flag was never raised", scn.max_errors, scn.max_errors), prefix.to_vec()));
         }
         true
     });
@@ -328,16 +337,23 @@ pub fn run(tier: Tier, _replay: Option<String>) -> i32 {
         explore_stop(&mut rep, &mut tot, &scn, Some(cap), bound, &format!("signal, filtered writing of link 0, queue capacity {cap}"), Some(&expected));
     }
     // (b) error cap for every N
+    // the exact number of errors the stream produces: from an uncapped reference execution's statistics file
     let total_errors = {
-        let (w, _) = stream::walk(&faulty3);
-        2 * w.len() as u32
+        let scn = Scn { mode: Mode::AllIts, mute: false, max_errors: 0, signal: false, cap: 2, input: faulty3.clone(), scratch: scratch(), toml: false };
+        let (_, o) = scenario::run(&scn, scenario::config(&scn), Policy { prefix: vec![], max_steps: 30_000, yield_on_unbounded_send: false, cap_override: Some(1), descending: false });
+        let n = o.stats_file.as_ref().and_then(|b| serde_json::from_slice::<serde_json::Value>(b).ok()).and_then(|v| v["error_stats"]["total_errors"].as_u64()).unwrap_or(0) as u32;
+        if n < 4 {
+            rep.machinery_error(format!("reference execution reports only {n} errors"));
+        }
+        n
     };
+    rep.cov("error_cap_scenarios_total_errors_in_stream", json!(total_errors));
     for n in 1..=total_errors {
         if !tier.is_thorough() && n > 4 && n % 4 != 0 && n != total_errors {
             continue;
         }
         let scn = Scn { mode: Mode::AllIts, mute: false, max_errors: n, signal: false, cap: 2, input: faulty3.clone(), scratch: scratch(), toml: false };
-        explore_stop(&mut rep, &mut tot, &scn, Some(1), bound.min(1), &format!("error cap -e {n}, queue capacity 1"), None);
+        explore_stop_x(&mut rep, &mut tot, &scn, Some(1), bound.min(1), &format!("error cap -e {n}, queue capacity 1"), None, true);
     }
     // (c) fatal framing error at every packet index
     let npk = stream::walk(&clean3).0.len();
